@@ -7,6 +7,13 @@ from ..interp_prop import InterpProp
 
 class C13(InterpProp):
     id = 'C13'
+    # observables compared with the model (see InterpProp.normalize)
+    cmp_eff = ('guard', 'cond', 'meta')
+    cmp_meta = ('step started',)
+    cmp_step = ()
+    cmp_slot = ('time', 'ctx')
+    cmp_callbacks = False
+    cmp_err = 'class'
     quick_cases = 800
     thorough_cases = 30000
     n_ops = 40
